@@ -408,10 +408,15 @@ def do_replay(ctx, rp, which):
     if not isinstance(sc, dict) or 'ops' not in sc:
         print('nothing to replay: %s' % (rp.get('theorem'),))
         return 1
-    obs, bad, run = replay_scenario(sc, which)
-    for op, o in zip(sc['ops'], obs):
-        print('  %-40r -> events %r' % (op, o[:1 + 0]), end='')
-        print(' state %r' % (run.last_state if op is sc['ops'][-1] else '',))
+    run = H.Run(sc)
+    orc = Oracle(sc, run, which)
+    for i, op in enumerate(sc['ops']):
+        orc.step(i, op)
+        print('  %-34r events %r' % (op, run.last_events))
+        print('  %34s errors=%r retries=%r cl=%r queue=%r result=%r exception=%r' % (
+            '', run.last_state['errors'], run.last_state['retries'], run.last_state['cl'], run.last_state['queue'],
+            run.last_state['res'], run.last_state['exc']))
+    bad = orc.bad
     for key, what, thm in bad:
         print('  oracle: [%s] %s' % (key, what))
     if bad:
